@@ -120,6 +120,9 @@ func (w *worker) runPath(prefix []decision) (res PathResult, pending [][]decisio
 	i.killThreads()
 	res.Known = ex.known
 	res.EngineOnly = ex.engineOnly
+	if len(i.threads) > 1 && (i.cfg.SpawnDeferred || i.cfg.Interleave) && res.EngineOnly == "" && res.Kind != oOK {
+		res.EngineOnly = "schedule-dependent: goroutines of the code under test were scheduled by the engine (deferred / interleaving mode)"
+	}
 	res.Trace = ex.traceString()
 	res.Reached = ex.reached
 	res.Asserts = ex.asserts
